@@ -323,7 +323,10 @@ class CFG:
         dom = self.dominators()
         out = []
         for (u, v), (test, sense) in self.cond_edges.items():
-            if v in dom.get(nid, set()) and len(self.pred[v]) == 1:
+            # v is entered only through this edge (other predecessors are
+            # back edges of a loop headed by v)
+            if v in dom.get(nid, set()) and all(
+                    p == u or v in dom.get(p, set()) for p in self.pred[v]):
                 out.append((len(dom.get(v, set())), test, sense))
         out.sort(key=lambda t: t[0])
         return [(t, s) for _, t, s in out]
